@@ -19,13 +19,23 @@ pub enum Kind {
     /// a reader reload (second Index handle or the writer's own) is preempted between two of its storage
     /// operations by writer-side activity
     ReloadVsWriter { second_handle: bool, action: usize },
-    /// a merge thread is preempted by the writer being dropped, a new writer committing
-    MergeVsRestart,
+    /// a merge thread / the updater finishing the merge is preempted by the writer being dropped (action 0)
+    /// or rolled back (action 1), followed by an add and a commit
+    MergeVsRestart { action: usize },
+    /// two merges sharing a source segment are in flight at once (all ordered choices over 3 segments);
+    /// the one that can no longer be applied must be discarded
+    OverlappingMerges { combo: usize },
+    /// the updater is preempted inside a commit until a concurrently running merge has finished its files
+    /// and asked for publication
+    CommitVsMergeEnd,
     /// an indexing worker / the caller is preempted by a reader loading the index for the first time
     WriterVsReload,
     /// a merge thread is preempted between two of its storage operations by deletes / commits / rollback /
     /// adds on the writer (the end_merge reconciliation of deletes newer than the merge's target opstamp)
     MergeVsOps { action: usize },
+    /// two deviations: the merge thread is preempted at its `m_idx`-th storage operation by the action, and
+    /// afterwards the k-th storage operation of the updater (finishing / reconciling the merge) fails once
+    MergeVsOpsFault { action: usize, m_idx: usize },
 }
 
 pub fn merge_actions() -> Vec<Vec<Step>> {
@@ -59,10 +69,20 @@ pub fn scenarios(thorough: bool) -> Vec<Kind> {
             v.push(Kind::ReloadVsWriter { second_handle, action });
         }
     }
-    v.push(Kind::MergeVsRestart);
+    v.push(Kind::MergeVsRestart { action: 0 });
+    v.push(Kind::MergeVsRestart { action: 1 });
+    for combo in 0..overlap_combos().len() {
+        v.push(Kind::OverlappingMerges { combo });
+    }
+    v.push(Kind::CommitVsMergeEnd);
     v.push(Kind::WriterVsReload);
     for action in 0..merge_actions().len() {
         v.push(Kind::MergeVsOps { action });
+    }
+    for action in [0usize, 1, 5] {
+        for m_idx in if thorough { vec![1usize, 20, 40, 60, 70] } else { vec![1usize, 40] } {
+            v.push(Kind::MergeVsOpsFault { action, m_idx });
+        }
     }
     if thorough {
         v.push(Kind::GcVsWriters { flush_after: None, workers: 1, compressor: true });
@@ -117,6 +137,13 @@ pub fn fingerprint(searcher: &Searcher) -> Result<BTreeSet<u64>, String> {
     Ok(out)
 }
 
+/// storage operations per thread plus hook points per thread ("T@")
+fn all_counts(sim: &SimDirectory) -> BTreeMap<String, usize> {
+    let mut m = sim.thread_op_counts();
+    m.extend(crate::presched::point_counts());
+    m
+}
+
 fn ranges_between(before: &BTreeMap<String, usize>, after: &BTreeMap<String, usize>) -> BTreeMap<String, (usize, usize)> {
     let mut out = BTreeMap::new();
     for (t, &b) in after {
@@ -154,18 +181,25 @@ fn steps_ok(d: &mut Driver, steps: &[Step], out: &mut Vec<(String, String)>, ctx
 }
 
 pub fn run(kind: &Kind, point: Option<&Point>) -> RunResult {
+    crate::presched::reset_points();
     match kind {
         Kind::GcVsWriters { flush_after, workers, compressor } => gc_vs_writers(*flush_after, *workers, *compressor, point),
         Kind::ReloadVsWriter { second_handle, action } => reload_vs_writer(*second_handle, *action, point),
-        Kind::MergeVsRestart => merge_vs_restart(point),
+        Kind::MergeVsRestart { action } => merge_vs_restart(*action, point),
+        Kind::OverlappingMerges { combo } => overlapping_merges(*combo, point),
+        Kind::CommitVsMergeEnd => commit_vs_merge_end(point),
         Kind::WriterVsReload => writer_vs_reload(point),
-        Kind::MergeVsOps { action } => merge_vs_ops(*action, point),
+        Kind::MergeVsOps { action } => merge_vs_ops(*action, point, None),
+        Kind::MergeVsOpsFault { action, m_idx } => merge_vs_ops(*action, point, Some(*m_idx)),
     }
 }
 
 fn final_checks(sim: &SimDirectory, d: &mut Driver, res: &mut RunResult, log_from: usize) {
     use Step::*;
     crate::hist::wait_merges_quiescent();
+    if let Err(v) = commit_identity(sim, &d.last_commit) {
+        res.violations.push(v);
+    }
     if d.writer.is_none() && !steps_ok(d, &[NewWriter], &mut res.violations, "after the scenario") {
         return;
     }
@@ -201,7 +235,7 @@ fn gc_vs_writers(flush_after: Option<u32>, workers: usize, compressor: bool, poi
     if !steps_ok(&mut d, &[Add(1), Add(2), Commit, Add(3), Commit], &mut res.violations, "setup") {
         return res;
     }
-    let before = sim.thread_op_counts();
+    let before = all_counts(&sim);
     let log_from = sim.log_len();
     let trigger = d.writer.as_ref().unwrap().verif_gc_trigger();
     let gc_result: Arc<Mutex<Option<String>>> = Arc::new(Mutex::new(None));
@@ -221,7 +255,7 @@ fn gc_vs_writers(flush_after: Option<u32>, workers: usize, compressor: bool, poi
         )
     });
     let ok = steps_ok(&mut d, &[Add(4), Add(5), DelId(1), Commit, Merge, Add(6), DelId(2), Commit], &mut res.violations, "with a collection forced");
-    res.ranges = ranges_between(&before, &sim.thread_op_counts());
+    res.ranges = ranges_between(&before, &all_counts(&sim));
     if let Some(p) = pre {
         let o = p.finish();
         if let Some(m) = &o.action_panic {
@@ -286,7 +320,7 @@ fn reload_vs_writer(second_handle: bool, action: usize, point: Option<&Point>) -
         res.violations.push(("reload_not_a_commit".into(), format!("the first load shows {f0:?}, the last commit is {:?}", d.model.history[h0])));
         return res;
     }
-    let before = sim.thread_op_counts();
+    let before = all_counts(&sim);
     let log_from = sim.log_len();
     let steps = reload_actions()[action].clone();
     let drv = Arc::new(Mutex::new(d));
@@ -312,7 +346,7 @@ fn reload_vs_writer(second_handle: bool, action: usize, point: Option<&Point>) -
         .unwrap()
         .join()
         .unwrap();
-    res.ranges = ranges_between(&before, &sim.thread_op_counts());
+    res.ranges = ranges_between(&before, &all_counts(&sim));
     let fired = match pre {
         Some(p) => {
             let o = p.finish();
@@ -378,7 +412,7 @@ fn reload_vs_writer(second_handle: bool, action: usize, point: Option<&Point>) -
     res
 }
 
-fn merge_vs_restart(point: Option<&Point>) -> RunResult {
+fn merge_vs_restart(action: usize, point: Option<&Point>) -> RunResult {
     use Step::*;
     let mut res = RunResult::default();
     crate::presched::set_flush(None);
@@ -392,7 +426,7 @@ fn merge_vs_restart(point: Option<&Point>) -> RunResult {
     if !steps_ok(&mut d, &[Add(1), Commit, Add(2), Commit], &mut res.violations, "setup") {
         return res;
     }
-    let before = sim.thread_op_counts();
+    let before = all_counts(&sim);
     let log_from = sim.log_len();
     let ids = d.index.as_ref().unwrap().searchable_segment_ids().unwrap_or_default();
     let drv = Arc::new(Mutex::new(d));
@@ -402,7 +436,8 @@ fn merge_vs_restart(point: Option<&Point>) -> RunResult {
         move || {
             let mut d = drv.lock().unwrap();
             let mut v = vec![];
-            steps_ok(&mut d, &[DropWriter, NewWriter, Add(9), Commit], &mut v, "writer restart during the merge");
+            let steps: &[Step] = if action == 0 { &[DropWriter, NewWriter, Add(9), Commit] } else { &[Rollback, Add(9), CommitPayload] };
+            steps_ok(&mut d, steps, &mut v, "writer restart / rollback during the merge");
             errs.lock().unwrap().extend(v);
         }
     };
@@ -413,7 +448,7 @@ fn merge_vs_restart(point: Option<&Point>) -> RunResult {
     };
     let merge_result = fut.wait().map(|_| ()).map_err(|e| format!("{e:?}"));
     res.notes.push(format!("merge future: {merge_result:?}"));
-    res.ranges = ranges_between(&before, &sim.thread_op_counts());
+    res.ranges = ranges_between(&before, &all_counts(&sim));
     let fired = match pre {
         Some(p) => {
             let o = p.finish();
@@ -442,7 +477,7 @@ fn merge_vs_restart(point: Option<&Point>) -> RunResult {
     res
 }
 
-fn merge_vs_ops(action: usize, point: Option<&Point>) -> RunResult {
+fn merge_vs_ops(action: usize, point: Option<&Point>, fault_mode: Option<usize>) -> RunResult {
     use Step::*;
     let mut res = RunResult::default();
     crate::presched::set_flush(None);
@@ -456,29 +491,56 @@ fn merge_vs_ops(action: usize, point: Option<&Point>) -> RunResult {
     if !steps_ok(&mut d, &[Add(1), Add(2), Commit, Add(3), Add(4), Commit], &mut res.violations, "setup") {
         return res;
     }
-    let before = sim.thread_op_counts();
+    let before = all_counts(&sim);
     let log_from = sim.log_len();
     let ids = d.index.as_ref().unwrap().searchable_segment_ids().unwrap_or_default();
     let steps = merge_actions()[action].clone();
     let drv = Arc::new(Mutex::new(d));
     let action_errors: Arc<Mutex<Vec<(String, String)>>> = Arc::new(Mutex::new(vec![]));
+    // fault mode: once the action is over, the k-th further storage operation of the updater fails once
+    let u_base: Arc<Mutex<Option<usize>>> = Arc::new(Mutex::new(None));
+    let fault_k: Option<usize> = if fault_mode.is_some() { point.map(|p| p.idx) } else { None };
     let run_action = {
-        let (drv, errs, steps) = (drv.clone(), action_errors.clone(), steps.clone());
+        let (drv, errs, steps, sim2, u_base) = (drv.clone(), action_errors.clone(), steps.clone(), sim.clone(), u_base.clone());
         move || {
             let mut d = drv.lock().unwrap();
             let mut v = vec![];
             steps_ok(&mut d, &steps, &mut v, "writer operations during the merge");
             errs.lock().unwrap().extend(v);
+            let base = sim2.thread_op_counts().get("U").copied().unwrap_or(0);
+            *u_base.lock().unwrap() = Some(base);
+            if let Some(k) = fault_k {
+                let fired = std::sync::atomic::AtomicBool::new(false);
+                sim2.set_fault(Some(Arc::new(move |o: &crate::simdir::OpDesc| {
+                    if o.tid == "U" && o.thread_index == base + k && !fired.swap(true, std::sync::atomic::Ordering::SeqCst) {
+                        Some(crate::simdir::io_fault("updater operation after the action"))
+                    } else {
+                        None
+                    }
+                })));
+            }
         }
     };
-    let pre = point.map(|p| Preempt::arm(&sim, &p.tid, p.idx, Box::new(run_action.clone())));
+    let pre = match fault_mode {
+        Some(m_idx) => Some(Preempt::arm(&sim, "M0", m_idx, Box::new(run_action.clone()))),
+        None => point.map(|p| Preempt::arm(&sim, &p.tid, p.idx, Box::new(run_action.clone()))),
+    };
     let fut = {
         let mut d = drv.lock().unwrap();
         d.writer.as_mut().unwrap().merge(&ids)
     };
     let merge_result = fut.wait().map(|_| ()).map_err(|e| format!("{e:?}"));
     res.notes.push(format!("merge future: {merge_result:?}"));
-    res.ranges = ranges_between(&before, &sim.thread_op_counts());
+    crate::hist::wait_merges_quiescent();
+    sim.set_fault(None);
+    res.ranges = ranges_between(&before, &all_counts(&sim));
+    if fault_mode.is_some() {
+        // the fault positions: updater operations issued after the action ended
+        let base = u_base.lock().unwrap().unwrap_or(0);
+        let end = sim.thread_op_counts().get("U").copied().unwrap_or(base);
+        res.ranges.clear();
+        res.ranges.insert("Ufault".to_string(), (0, end.saturating_sub(base)));
+    }
     let fired = match pre {
         Some(p) => {
             let o = p.finish();
@@ -511,7 +573,127 @@ fn merge_vs_ops(action: usize, point: Option<&Point>) -> RunResult {
             Err(e) => res.violations.push(("index_unreadable_after_merge".into(), e)),
         }
     }
+    // with an injected fault, the failed operation itself is in the log: only later failures count
+    let log_from = if fault_mode.is_some() { sim.log_len() } else { log_from };
     final_checks(&sim, &mut d, &mut res, log_from);
+    res
+}
+
+/// ordered pairs of merges over three segments sharing exactly one source
+pub fn overlap_combos() -> Vec<([usize; 2], [usize; 2])> {
+    let pairs: Vec<[usize; 2]> = vec![[0, 1], [1, 0], [0, 2], [2, 0], [1, 2], [2, 1]];
+    let mut v = vec![];
+    for a in &pairs {
+        for b in &pairs {
+            let shared = a.iter().filter(|x| b.contains(x)).count();
+            if shared == 1 {
+                v.push((*a, *b));
+            }
+        }
+    }
+    v
+}
+
+fn overlapping_merges(combo: usize, _point: Option<&Point>) -> RunResult {
+    use Step::*;
+    let mut res = RunResult::default();
+    crate::presched::set_flush(None);
+    let cfg = WlConfig { workers: 1, dedicated_compressor: false };
+    let sim = SimDirectory::new();
+    let mut d = Driver::new(sim.clone(), &cfg);
+    if d.create_index().is_err() || d.open_writer().is_err() {
+        res.violations.push(("machinery".into(), "setup failed".into()));
+        return res;
+    }
+    if !steps_ok(&mut d, &[Add(1), Add(2), Commit, Add(3), Commit, Add(4), DelId(1), Commit], &mut res.violations, "setup") {
+        return res;
+    }
+    let log_from = sim.log_len();
+    let ids = d.index.as_ref().unwrap().searchable_segment_ids().unwrap_or_default();
+    if ids.len() != 3 {
+        res.violations.push(("machinery".into(), format!("expected 3 segments, got {}", ids.len())));
+        return res;
+    }
+    let (a, b) = overlap_combos()[combo];
+    let w = d.writer.as_mut().unwrap();
+    // both merges are requested before either can end (one merge thread: the second starts from the segment
+    // entries it captured when it was requested)
+    let f1 = w.merge(&[ids[a[0]], ids[a[1]]]);
+    let f2 = w.merge(&[ids[b[0]], ids[b[1]]]);
+    let r1 = f1.wait().map(|m| m.map(|m| m.num_docs())).map_err(|e| format!("{e:?}"));
+    let r2 = f2.wait().map(|m| m.map(|m| m.num_docs())).map_err(|e| format!("{e:?}"));
+    res.notes.push(format!("merge futures: {r1:?} {r2:?}"));
+    crate::hist::wait_merges_quiescent();
+    match read_ids(&sim) {
+        Ok(ids) if ids == d.model.committed => {}
+        Ok(ids) => res.violations.push(("content_differs_after_merge".into(), format!("after merges of segments {a:?} and {b:?} (results {r1:?}, {r2:?}) a fresh open shows {ids:?}; the last commit holds {:?}", d.model.committed))),
+        Err(e) => res.violations.push(("index_unreadable_after_merge".into(), format!("after merges of segments {a:?} and {b:?} (results {r1:?}, {r2:?}): {e}"))),
+    }
+    final_checks(&sim, &mut d, &mut res, log_from);
+    res
+}
+
+fn commit_vs_merge_end(point: Option<&Point>) -> RunResult {
+    use Step::*;
+    let mut res = RunResult::default();
+    crate::presched::set_flush(None);
+    let cfg = WlConfig { workers: 1, dedicated_compressor: false };
+    let sim = SimDirectory::new();
+    let mut d = Driver::new(sim.clone(), &cfg);
+    if d.create_index().is_err() || d.open_writer().is_err() {
+        res.violations.push(("machinery".into(), "setup failed".into()));
+        return res;
+    }
+    if !steps_ok(&mut d, &[Add(1), Add(2), CommitPayload, Add(3), Add(4), CommitPayload, DelId(1), Add(5)], &mut res.violations, "setup") {
+        return res;
+    }
+    let before = all_counts(&sim);
+    let log_from = sim.log_len();
+    let ids = d.index.as_ref().unwrap().searchable_segment_ids().unwrap_or_default();
+    // choreography: the merge thread waits in front of its first storage operation until the updater is parked
+    // inside the commit; the updater then stays parked until the merge has asked for publication
+    let u_parked = Arc::new(std::sync::atomic::AtomicBool::new(false));
+    let fired = Arc::new(Mutex::new(None::<String>));
+    if let Some(p) = point {
+        let (u_parked, fired, p) = (u_parked.clone(), fired.clone(), p.clone());
+        let ends0 = crate::presched::merge_ends();
+        sim.set_gate(Some(Arc::new(move |o: &crate::simdir::OpDesc| {
+            use std::sync::atomic::Ordering::SeqCst;
+            let t0 = std::time::Instant::now();
+            if o.tid.starts_with('M') {
+                while !u_parked.load(SeqCst) && t0.elapsed() < std::time::Duration::from_millis(1500) {
+                    std::thread::sleep(std::time::Duration::from_micros(200));
+                }
+            } else if o.tid == p.tid && o.thread_index == p.idx && fired.lock().unwrap().is_none() {
+                *fired.lock().unwrap() = Some(format!("{}#{} {}({})", o.tid, o.thread_index, o.kind, o.path));
+                u_parked.store(true, SeqCst);
+                while crate::presched::merge_ends() == ends0 && t0.elapsed() < std::time::Duration::from_millis(1500) {
+                    std::thread::sleep(std::time::Duration::from_micros(200));
+                }
+                // the merge thread is now between its last file and the publication request
+                std::thread::sleep(std::time::Duration::from_millis(3));
+            }
+        })));
+    }
+    let fut = d.writer.as_mut().unwrap().merge(&ids);
+    let ok = steps_ok(&mut d, &[CommitPayload], &mut res.violations, "commit while a merge ends");
+    // never leave the merge thread waiting
+    u_parked.store(true, std::sync::atomic::Ordering::SeqCst);
+    let mr = fut.wait().map(|_| ()).map_err(|e| format!("{e:?}"));
+    res.notes.push(format!("merge future: {mr:?}"));
+    sim.set_gate(None);
+    res.ranges = ranges_between(&before, &all_counts(&sim));
+    let at = fired.lock().unwrap().clone();
+    res.outcome = point.map(|_| Outcome { fired: at.is_some(), blocked_on_lock: false, timed_out: false, action_panic: None, at_op: at.clone().unwrap_or_default() });
+    crate::hist::wait_merges_quiescent();
+    if ok {
+        match read_ids(&sim) {
+            Ok(ids) if ids == d.model.committed => {}
+            Ok(ids) => res.violations.push(("content_differs_after_merge".into(), format!("commit preempted at {at:?} until the merge asked for publication: a fresh open shows {ids:?}; the last commit holds {:?}", d.model.committed))),
+            Err(e) => res.violations.push(("index_unreadable_after_merge".into(), e)),
+        }
+        final_checks(&sim, &mut d, &mut res, log_from);
+    }
     res
 }
 
@@ -529,7 +711,7 @@ fn writer_vs_reload(point: Option<&Point>) -> RunResult {
     if !steps_ok(&mut d, &[Add(1), Commit, Add(2), Commit], &mut res.violations, "setup") {
         return res;
     }
-    let before = sim.thread_op_counts();
+    let before = all_counts(&sim);
     let log_from = sim.log_len();
     let h0 = d.model.history.len() - 1;
     let seen: Arc<Mutex<Option<Result<BTreeSet<u64>, String>>>> = Arc::new(Mutex::new(None));
@@ -546,7 +728,7 @@ fn writer_vs_reload(point: Option<&Point>) -> RunResult {
     };
     let pre = point.map(|p| Preempt::arm(&sim, &p.tid, p.idx, Box::new(load.clone())));
     let ok = steps_ok(&mut d, &[Add(3), DelId(1), Commit, Merge, DelId(2), Commit], &mut res.violations, "with a reader loading in between");
-    res.ranges = ranges_between(&before, &sim.thread_op_counts());
+    res.ranges = ranges_between(&before, &all_counts(&sim));
     if let Some(p) = pre {
         let o = p.finish();
         if let Some(m) = &o.action_panic {
@@ -576,12 +758,17 @@ fn writer_vs_reload(point: Option<&Point>) -> RunResult {
 /// the preemption points of a scenario: every operation of every eligible thread of its gated section
 pub fn points(kind: &Kind, ranges: &BTreeMap<String, (usize, usize)>) -> Vec<Point> {
     let mut v = vec![];
-    for (tid, (a, b)) in ranges {
+    for (tid_full, (a, b)) in ranges {
+        let tid = tid_full.trim_end_matches('@');
         let eligible = match kind {
-            // the collection runs on the updater thread: it cannot preempt it
-            Kind::GcVsWriters { .. } => tid != "U" && tid != "P",
+            // the collection runs on the updater thread: requested in front of one of the updater's own
+            // operations it waits (park limit) and runs right after the current task, with whatever it captured
+            Kind::GcVsWriters { .. } => tid != "P",
             Kind::ReloadVsWriter { .. } => tid == "R",
-            Kind::MergeVsRestart | Kind::MergeVsOps { .. } => tid.starts_with('M'),
+            Kind::MergeVsRestart { .. } | Kind::MergeVsOps { .. } => tid.starts_with('M') || tid == "U",
+            Kind::OverlappingMerges { .. } => false,
+            Kind::MergeVsOpsFault { .. } => tid == "Ufault",
+            Kind::CommitVsMergeEnd => tid == "U",
             Kind::WriterVsReload => tid != "P",
         };
         if !eligible {
@@ -589,7 +776,7 @@ pub fn points(kind: &Kind, ranges: &BTreeMap<String, (usize, usize)>) -> Vec<Poi
         }
         // one point past the end: never reached, the action then runs after the section (baseline)
         for idx in *a..*b {
-            v.push(Point { tid: tid.clone(), idx });
+            v.push(Point { tid: tid_full.clone(), idx });
         }
     }
     v
